@@ -142,7 +142,7 @@ func scanConsumeLine(p *symbolScanner) scanStateFn {
 }
 
 func scanEquValue(p *symbolScanner) scanStateFn {
-	for p.nextToken.typ != tokNewline && p.nextToken.typ != tokEOF && p.nextToken.typ != tokError {
+	for p.nextToken.typ != tokNewline && p.nextToken.typ != tokComment && p.nextToken.typ != tokEOF && p.nextToken.typ != tokError {
 		p.valBuf = append(p.valBuf, p.nextToken)
 		p.next()
 	}
